@@ -2,11 +2,10 @@ SPECIFICATION Spec
 INVARIANT CursorTypeOK
 PROPERTY Progress
 PROPERTY Variant
-PROPERTY Terminates
 CONSTANTS
   Mode = "cursor"
   MaxLen = 8
-  Alphabet = {"(", ")", "op", "id", "else", "}"}
+  Alphabet = {"(", ")", "op", "id", "else"}
   Dev = {}
   Fuel = 0
   MaxMuts = 0
